@@ -265,6 +265,17 @@ func run(c *lib.Ctx) error {
 
 // judge hands groups (each starting with a reset record) to TraceCodeBuffer and reports rejections.
 func judge(c *lib.Ctx, dir, name string, groups [][]rec) error {
+	// keep every TLC process small (<= ~4000 records of up to 80 tokens): batches of 16 000 records
+	total := 0
+	for i, g := range groups {
+		total += len(g)
+		if total > 16000 && i+1 < len(groups) {
+			if err := judge(c, dir, name, groups[:i+1]); err != nil {
+				return err
+			}
+			return judge(c, dir, name, groups[i+1:])
+		}
+	}
 	if p := os.Getenv("C28_DUMP"); p != "" { // development aid: keep the cases handed to TLC
 		var flat []rec
 		for _, g := range groups {
